@@ -22,7 +22,7 @@ PLANS = {
     },
     "C03": {
         "level": "other",
-        "sidecars": ["serialise", "params", "driver", "grouping", "patching"],
+        "sidecars": ["serialise", "params", "driver", "grouping", "patching", "residues"],
         "extras": [{"name": "c03_atom_set_table", "module": "tables.x_checks", "func": "c03_atom_sets", "python": "vt"},
                    {"name": "c07_records", "module": "bounded.c07_records", "func": "run", "python": "venv", "timeout": 3000}],
         "explanation": "Contracts decide the bookkeeping: apply_force_field partitions the model into written / unassigned, "
@@ -72,7 +72,7 @@ PLANS = {
     },
     "C07": {
         "level": "proof",
-        "sidecars": ["pdbread", "grouping", "readloop", "driver"],
+        "sidecars": ["pdbread", "grouping", "readloop", "driver", "residues"],
         "extras": [{"name": "c07_records", "module": "bounded.c07_records", "func": "run", "python": "venv", "timeout": 3000}],
         "explanation": "ATOM/HETATM column parser proved (layout logic), drop_water proved; residue grouping of "
                        "Biomolecule.__init__ proved by induction over the record list (loop invariant with ghost books: none "
